@@ -301,14 +301,20 @@ func statusListRefreshEntry(h *harness) *entry {
 				emit(in)
 			}
 			// every (cached copy, ageing) x every scripted answer
+			pair := int(h.r.Seed())
 			for _, cached := range []string{"jwt-exp", "jwt-no-exp", "none"} {
 				for _, age := range slAges {
 					if cached == "none" && age != "fresh" {
 						continue // nothing there to age
 					}
+					pair++
 					for si, s := range seconds {
-						if (age == "fresh" || age == "created-in-the-future") && cached != "none" && si%8 != 0 {
-							continue // the copy is young: no refresh is attempted, the answer is never fetched (a few are kept to observe exactly that)
+						if young := age == "fresh" || age == "created-in-the-future"; young && cached != "none" {
+							if si%8 != 0 {
+								continue // the copy is young: no refresh is attempted, the answer is never fetched (a few are kept to observe exactly that)
+							}
+						} else if !h.r.Thorough() && cached != "none" && (si+pair)%2 != 0 {
+							continue // quick: every (cached copy, ageing) meets every other answer; which half depends on the seed
 						}
 						emit(mk(slCase{cached, age, s}, []string{"answer:" + s.name + "@/refresh", "cached:" + cached + "@/cached", "age:" + age + "@/age"}))
 					}
